@@ -57,21 +57,20 @@ def check(ctx):
     it, fs, parts = _step(ctx, "SinglePhaseReservoir")
     seen = set()
     for p, ev, A, b in parts:
-        init = [e for e in p.events if e.kind == "store_sub" and isinstance(e.data["base"], Arr2) and isinstance(e.data["index"], TupV) and e.func.endswith("SinglePhaseReservoir.simulate")]
+        from .reservoir import initial_row
+
         arm = next((c for _k, c, d in p.decisions if "pressure_fracface is None" in d), None)
         if arm in seen:
             continue
         seen.add(arm)
         ok = False
         det = {}
-        if len(init) == 1 and isinstance(init[0].data["value"], Vec):
-            v = init[0].data["value"]
-            idx = init[0].data["index"]
-            first = isinstance(idx.items[0], Num) and not idx.items[0].nf
+        v = initial_row(p)
+        if v is not None:
             over0 = v.over.get(nf.key(nf.const(0)))
             others = [k for k in v.over if k != nf.key(nf.const(0))]
             det = {"generic": nf.show(v.gen, 100), "node0": nf.show(over0[1], 160) if over0 else "-"}
-            ok = first and v.gen == nf.sym("self.fluid.m_i") and over0 is not None and "m_scaled_func" in nf.show(over0[1], 300) and not others and nf.equal(v.length, NX)
+            ok = v.gen == nf.sym("self.fluid.m_i") and over0 is not None and "m_scaled_func" in nf.show(over0[1], 300) and not others and nf.equal(v.length, NX)
         ctx.check(
             ok, "C02-c", RES + f"SinglePhaseReservoir.simulate:initial state [schedule given={arm is False}]", fs.where(),
             "level 0 is uniformly m_i with the frac-face node set to the first frac-face value", signature="initial state", **det,
